@@ -80,6 +80,11 @@ func runC11Case(rt *rapid.T) {
 		a.CB, b.CB = true, true
 	}
 	specs = append(specs, a, b)
+	if (kind == "map" || kind == "mapof") && rapid.Bool().Draw(rt, "growOnlyInstance") {
+		g := base
+		g.Presize, g.GrowOnly = h1, true // the internal grow-only option: same contents, never shrinks except on Clear
+		specs = append(specs, g)
+	}
 	if kind == "mapof" && small {
 		c, d := base, base
 		c.Hasher, d.Hasher = "const", "lowbits"
